@@ -190,4 +190,20 @@ PROPS = {
                    'all four modes (driver-limited cases included; scipy root recorded and replayed as oracle); the harness also checks that '
                    'point() leaves the pump __dict__ unchanged.',
     ),
+    'C10': dict(
+        own_files=['Lemmas/LC10.v', 'Props/C10.v'],
+        corr=[dict(script='corr_oppoint.py', n=400, n_thorough=10000)],
+        search='C10.py', budget_quick=25, budget_thorough=600, search_timeout=3400,
+        partial=['C10_lands_on_root: that the unbracketed secant search, started at qimin and the mid flow, lands on the stable intersection right of '
+                 'qimin whenever the curves meet is not proved (it needs convexity / monotonicity of graded-sand system curves and driver-limited '
+                 'pump curves); searched against an independent bisection on real pipelines',
+                 'C10_qimin: the minimum-friction flow comes from scipy.optimize.minimize_scalar(bounded), an oracle; its quality is searched only',
+                 'heads equal within 1e-6 relative: proved is |gap(b)| <= 1.48e-8 x |secant slope| at the last evaluated flow'],
+        level_text='Proof (model of find_operating_point with scipy\'s secant written out, for every head-gap function): pump head below system head at '
+                   'qimin gives OperatingPointError; the only outcomes are a root the secant reports as converged, OperatingPointError, or scipy\'s '
+                   'ValueError exactly when the two starting flows coincide; a converged root is one secant update, at most 1.48e-8 away, from the '
+                   'last evaluated flow, where the heads differ by at most 1.48e-8 times the local secant slope.',
+        level_note='The secant model is compared bit for bit (outcome, root, every visited flow) with the real scipy root_scalar through the real '
+                   'find_operating_point on recorded gap tables of eight curve shapes. The main landing clause is partial (search).',
+    ),
 }
